@@ -60,6 +60,8 @@ type discCtx struct {
 	rng  *hx.Rng
 	keys []*btcec.PrivateKey
 	ids  []discover.NodeID
+
+	lastAlloc uint64 // bytes allocated by the last measured decodePacket call
 }
 
 func newDiscCtx(run *hx.Run, rng *hx.Rng) *discCtx {
@@ -177,6 +179,16 @@ func (c *discCtx) dec(nc bool, buf []byte, tag string) string {
 	in := "disc " + ncs + " " + hx.Hex(buf) + " " + rec
 	run.Current(in)
 	cp := append([]byte{}, buf...)
+	measure := strings.HasPrefix(tag, "inflated")
+	var before uint64
+	if measure {
+		before = totalAlloc()
+	}
+	defer func() {
+		if measure {
+			c.lastAlloc = totalAlloc() - before
+		}
+	}()
 	out := hx.Safe(func() string {
 		p, id, hash, err := discover.VerifDecodePacket(nc, cp)
 		if err != nil {
@@ -338,6 +350,108 @@ func discSection(run *hx.Run, rng *hx.Rng) {
 			t = discover.VerifTypeByte(rng.Bool(), kinds[rng.Intn(4)])
 		}
 		c.dec(nc, c.signed(rng.Intn(3), mk(nc, t, tagged, body)), "signed-malformed")
+	}
+
+	// --- 2d. consistently inflated length prefixes: a short, correctly hashed and signed datagram whose RLP claims a huge
+	// byte string (or raw tail element) and whose enclosing lists all claim matching sizes, so that only the check against
+	// the real input length can stop the decoder from allocating what is claimed.
+	rlpHdr := func(base byte, l uint64) []byte {
+		if l < 56 {
+			return []byte{base + byte(l)}
+		}
+		var b []byte
+		for y := l; y > 0; y >>= 8 {
+			b = append([]byte{byte(y)}, b...)
+		}
+		return append([]byte{base + 55 + byte(len(b))}, b...)
+	}
+	cat := func(parts ...[]byte) []byte {
+		var o []byte
+		for _, p := range parts {
+			o = append(o, p...)
+		}
+		return o
+	}
+	u := func(x uint64) []byte { b, _ := rlp.EncodeToBytes(x); return b }
+	bs := func(x []byte) []byte { b, _ := rlp.EncodeToBytes(x); return b }
+	// list whose header claims `claimed` extra bytes beyond what is really there
+	type piece struct {
+		data    []byte
+		claimed uint64 // size the piece pretends to have
+	}
+	real := func(b []byte) piece { return piece{b, uint64(len(b))} }
+	list := func(ps ...piece) piece { // consistent: the header claims the sum of what the members claim
+		var body []byte
+		var claim uint64
+		for _, p := range ps {
+			body = append(body, p.data...)
+			claim += p.claimed
+		}
+		h := rlpHdr(0xc0, claim)
+		return piece{cat(h, body), uint64(len(h)) + claim}
+	}
+	str := func(l uint64, content []byte) piece { // string header claiming l bytes, followed by only len(content) bytes
+		h := rlpHdr(0x80, l)
+		return piece{cat(h, content), uint64(len(h)) + l}
+	}
+	rawList := func(l uint64) piece { h := rlpHdr(0xc0, l); return piece{h, uint64(len(h)) + l} }
+	future := uint64(time.Now().Unix()) + 100000
+	ep := func() piece { return list(real(bs([]byte{10, 0, 0, 1})), real(u(30303)), real(u(30303))) }
+	id64 := rng.Bytes(64)
+	inflated := func(l uint64) map[string]struct {
+		kind byte
+		body []byte
+	} {
+		type kb = struct {
+			kind byte
+			body []byte
+		}
+		few := rng.Bytes(4)
+		return map[string]kb{
+			"ping.From.IP":         {'p', list(real(u(4)), list(str(l, few), real(u(30303)), real(u(30303))), ep(), real(u(future))).data},
+			"ping.To.IP":           {'p', list(real(u(4)), ep(), list(str(l, few), real(u(1)), real(u(2))), real(u(future))).data},
+			"ping.tail":            {'p', list(real(u(4)), ep(), ep(), real(u(future)), str(l, few)).data},
+			"pong.To.IP":           {'o', list(list(str(l, few), real(u(30303)), real(u(30303))), real(bs(rng.Bytes(32))), real(u(future))).data},
+			"pong.ReplyTok":        {'o', list(ep(), str(l, few), real(u(future))).data},
+			"pong.tail(list)":      {'o', list(ep(), real(bs(rng.Bytes(32))), real(u(future)), rawList(l)).data},
+			"findnode.tail":        {'f', list(real(bs(id64)), real(u(future)), str(l, few)).data},
+			"findnode.tail(list)":  {'f', list(real(bs(id64)), real(u(future)), rawList(l)).data},
+			"neighbors.Nodes[0].IP": {'n', list(list(list(str(l, few), real(u(30303)), real(u(30303)), real(bs(id64)))), real(u(future))).data},
+			"neighbors.Nodes[1].IP": {'n', list(list(list(real(bs([]byte{10, 0, 0, 2})), real(u(30303)), real(u(30303)), real(bs(id64))),
+				list(str(l, few), real(u(1)), real(u(2)), real(bs(id64)))), real(u(future))).data},
+			"neighbors.tail": {'n', list(list(), real(u(future)), str(l, few)).data},
+			// inconsistent variants: only the innermost claim is inflated (the enclosing list bounds it)
+			"ping.From.IP(inner only)": {'p', cat(rlpHdr(0xc0, 40), u(4), rlpHdr(0xc0, 20), rlpHdr(0x80, l), few, u(30303), u(30303))},
+		}
+	}
+	stopInflated := false
+	fieldsOrder := []string{"ping.From.IP", "ping.To.IP", "ping.tail", "pong.To.IP", "pong.ReplyTok", "pong.tail(list)", "findnode.tail", "findnode.tail(list)",
+		"neighbors.Nodes[0].IP", "neighbors.Nodes[1].IP", "neighbors.tail", "ping.From.IP(inner only)"}
+	for _, l := range []uint64{1 << 10, 1 << 16, 1 << 24, 1 << 28, 1 << 31, 1 << 40, 1 << 62, 1<<63 + 5} {
+		if stopInflated {
+			run.Count("disc:inflated:skipped-after-violation")
+			continue // larger claims would only exhaust memory once the decoder is known to trust them
+		}
+		m := inflated(l)
+		for _, f := range fieldsOrder {
+			for _, nc := range []bool{false, true} {
+				kb := m[f]
+				dg := c.signed(rng.Intn(3), mk(nc, discover.VerifTypeByte(nc, kb.kind), !nc, kb.body))
+				o := c.dec(nc, dg, "inflated")
+				in := map[string]interface{}{"field": f, "claimed": l, "netcompat": nc, "datagram": hx.Hex(dg), "datagram_len": len(dg)}
+				if strings.HasPrefix(o, "panic") {
+					stopInflated = true // already reported by dec
+				}
+				if c.lastAlloc > 1<<20 {
+					stopInflated = true
+					run.Violate("over-allocation", "discover.decodePacket allocates what an inflated length prefix claims ("+f+")", in,
+						fmt.Sprintf("a %d-byte signed datagram claiming a %d-byte %s made decodePacket allocate %d bytes", len(dg), l, f, c.lastAlloc))
+				}
+				if strings.HasPrefix(o, "ok") {
+					run.Violate("tamper-accepted", "discover.decodePacket accepts an inflated length ("+f+")", in, o)
+				}
+			}
+		}
 	}
 
 	// --- 3. unauthenticated noise: random bytes, valid hash over random content, truncated heads
